@@ -174,9 +174,56 @@ pub fn count_ladder_programs(tier: crate::shard::Tier) -> Vec<(usize, Vec<Stmt>)
     out
 }
 
+/// Dense ladder: EVERY count N up to a bound (not only the neighbours of powers of two) for the shapes in
+/// which a loop's last value is the only reference to a fresh heap object: the loop as the tail of a function
+/// whose result is bound by a declaration, as an initialiser, and as the last statement. A threshold anywhere
+/// in the range is hit exactly.
+pub fn dense_ladder(sh: &mut Shard, which: &str) {
+    use crate::gen::*;
+    use nederlang::verif::Operator;
+    let bound: i64 = if sh.cfg.tier == crate::shard::Tier::Quick { 12_500 } else { 70_000 };
+    for n in 0..=bound {
+        for shape in 0..4 {
+            if !sh.mine() {
+                continue;
+            }
+            let lp = whil(
+                infix(index(id("p"), int(0)), Operator::Lt, int(n)),
+                vec![es(assign(id("p"), array(vec![infix(index(id("p"), int(0)), Operator::Add, int(1))])))],
+            );
+            let prog = match shape {
+                0 => vec![es(func("tel", &[], vec![let_("p", array(vec![int(0)])), es(lp)])), let_("laatste", calln("tel", vec![])), es(id("laatste"))],
+                1 => vec![let_("p", array(vec![int(0)])), let_("laatste", lp), es(id("laatste"))],
+                // the program ends in a declaration: what eval returns is whatever value was popped last
+                3 => vec![es(func("tel", &[], vec![let_("p", array(vec![int(0)])), es(lp)])), let_("laatste", calln("tel", vec![]))],
+                _ => vec![let_("p", array(vec![int(0)])), es(lp)],
+            };
+            sh.begin(&|| format!("dense ladder n={n} shape {shape}"));
+            sh.count("family:dense-ladder");
+            let r = run_ast(&prog, RunOpts { budget: Some(50_000_000), ledger: true, trace: false, render: true });
+            sh.nontrivial(&(n, shape));
+            let bad = if which == "C03" { c03_events(&r.heap) } else { c04_events(&r.heap) };
+            let dead = r.heap.iter().any(|e| e == "dead-result");
+            let ok_end = matches!(r.end, ImplEnd::Value(_));
+            if !bad.is_empty() || dead || !ok_end || (which == "C04" && r.leaked > 0) {
+                sh.violation(
+                    "heap",
+                    json!({"family": "dense-ladder", "program": printer::program(&prog), "events": r.heap, "leaked": r.leaked}),
+                    format!("n = {n}: end {}, heap events {:?}, {} box(es) left", crate::common::impl_end_text(&r.end), r.heap, r.leaked),
+                );
+                return;
+            }
+        }
+    }
+}
+
 /// The ladder under the shadow heap; for C04 also cut short around every power-of-two instruction count.
 pub fn count_ladder(sh: &mut Shard, which: &str) {
     let tier = sh.cfg.tier;
+    dense_ladder(sh, which);
+    if !sh.running() {
+        return;
+    }
     for (n, prog) in count_ladder_programs(tier) {
         if !sh.mine() {
             continue;
